@@ -16,7 +16,8 @@ def _w(callee):
     return m.group(1), WIDTH[m.group(1)]
 
 
-def ovf_err(op="overflow"):
+def ovf_err(op="Add"):
+    if isinstance(op, str): op = EnumV("OverflowOperation", op, ())
     return Struct("OverflowError", [op], ["operation"])
 
 
@@ -63,17 +64,33 @@ def m_uint(I, ctx, callee, args, crate):
         q = div_floor(ctx, a * num, den) if meth == "mul_floor" else div_floor(ctx, a * num + den - 1, den)
         if ctx.branch(q < hi, "mulfloor-ovf"): return q
         raise Panic("attempt to multiply with overflow (mul_floor)")
-    if meth == "multiply_ratio":
+    if meth in ("multiply_ratio", "checked_multiply_ratio"):
         num, den = b, I.deref(ctx, args[2])
-        if not ctx.branch(den != 0, "ratio-den"): raise Panic("Denominator must not be zero")
+        checked = meth.startswith("checked")
+        if not ctx.branch(den != 0, "ratio-den"):
+            if checked: return Err(EnumV("CheckedMultiplyRatioError", "DivideByZero", ()))
+            raise Panic("Denominator must not be zero")
         q = div_floor(ctx, a * num, den)
-        if ctx.branch(q < hi, "ratio-ovf"): return q
+        if ctx.branch(q < hi, "ratio-ovf"): return Ok(q) if checked else q
+        if checked: return Err(EnumV("CheckedMultiplyRatioError", "Overflow", ()))
         raise Panic("Multiplication overflow")
+    if meth == "full_mul": return a * b
+    if meth == "MIN": return 0
+    if meth == "checked_pow":
+        if not isinstance(b, int): b = ctx.concretize_int(b, 0, 33, "pow-exp", beyond="unsupported")
+        r = a ** b if isinstance(a, int) else (1 if b == 0 else _ipow(a, b))
+        return Ok(r) if ctx.branch(r < hi, "cpow") else Err(ovf_err("Pow"))
     if meth == "pow" and isinstance(b, int):
         r = a ** b
         if ctx.branch(r < hi, "pow"): return r
         raise Panic("pow overflow")
     raise Unsupported(f"{ty}::{meth}")
+
+
+def _ipow(x, e):
+    r = x
+    for _ in range(e - 1): r = r * x
+    return r
 
 
 def _div(a, b):
@@ -127,7 +144,7 @@ def m_uint_ops(I, ctx, callee, args, crate):
     return r
 
 
-@M.on(r"^(cosmwasm_std::)?Decimal::(one|zero|percent|permille|bps|new|raw|atomics|is_zero|from_ratio|from_atomics|checked_add|checked_sub|checked_mul|floor|ceil|to_uint_floor|to_uint_ceil|decimal_places|MAX|inv|checked_from_ratio)$")
+@M.on(r"^(cosmwasm_std::)?Decimal::(one|zero|percent|permille|bps|new|raw|atomics|is_zero|from_ratio|from_atomics|checked_add|checked_sub|checked_mul|checked_div|checked_rem|floor|ceil|to_uint_floor|to_uint_ceil|decimal_places|MAX|inv|checked_from_ratio|saturating_add|saturating_sub|saturating_mul|abs_diff|numerator|denominator)$")
 def m_decimal(I, ctx, callee, args, crate):
     meth = strip_generics(callee).split("::")[-1]
     if meth == "one": return E18
@@ -147,6 +164,39 @@ def m_decimal(I, ctx, callee, args, crate):
         if not ctx.branch(b != 0, "ratio0"): raise Panic("Denominator must not be zero")
         q = div_floor(ctx, a * E18, b)
         return _chk(ctx, q, U128, "Decimal::from_ratio")
+    if meth == "checked_from_ratio":
+        if not ctx.branch(b != 0, "ratio0"): return Err(EnumV("CheckedFromRatioError", "DivideByZero", ()))
+        q = div_floor(ctx, a * E18, b)
+        return Ok(q) if ctx.branch(q < U128, "ratio-ovf") else Err(EnumV("CheckedFromRatioError", "Overflow", ()))
+    if meth == "checked_mul":
+        q = div_floor(ctx, a * b, E18)
+        return Ok(q) if ctx.branch(q < U128, "dmul") else Err(ovf_err("Mul"))
+    if meth == "checked_div":
+        # Decimal::checked_from_ratio(self.numerator(), other.numerator())
+        if not ctx.branch(b != 0, "ddiv0"): return Err(EnumV("CheckedFromRatioError", "DivideByZero", ()))
+        q = div_floor(ctx, a * E18, b)
+        return Ok(q) if ctx.branch(q < U128, "ddiv-ovf") else Err(EnumV("CheckedFromRatioError", "Overflow", ()))
+    if meth == "checked_rem":
+        if not ctx.branch(b != 0, "drem0"): return Err(Struct("DivideByZeroError", [], []))
+        return Ok(a % b)
+    if meth == "saturating_add": return a + b if ctx.branch(a + b < U128, "dsadd") else U128 - 1
+    if meth == "saturating_sub": return a - b if ctx.branch(a >= b, "dssub") else 0
+    if meth == "saturating_mul":
+        q = div_floor(ctx, a * b, E18)
+        return q if ctx.branch(q < U128, "dsmul") else U128 - 1
+    if meth == "abs_diff": return a - b if ctx.branch(a >= b, "dabs") else b - a
+    if meth == "numerator": return a
+    if meth == "denominator": return E18
+    if meth == "to_uint_ceil":
+        if not ctx.branch(a != 0, "ceil0"): return 0
+        return 1 + div_floor(ctx, a - 1, E18)
+    if meth == "ceil":
+        fl = div_floor(ctx, a, E18) * E18
+        if ctx.branch(fl == a, "ceil-exact"): return fl
+        return _chk(ctx, fl + E18, U128, "Decimal::ceil")
+    if meth == "inv":
+        if not ctx.branch(a != 0, "inv0"): return NONE
+        return Some(div_floor(ctx, E18 * E18, a))
     if meth in ("to_uint_floor", "floor"):
         q = div_floor(ctx, a, E18)
         return q if meth == "to_uint_floor" else q * E18
@@ -175,7 +225,11 @@ def m_timestamp(I, ctx, callee, args, crate):
     meth = callee.split("::")[-1]
     a = I.deref(ctx, args[0])
     if meth in ("from_nanos", "nanos"): return a
-    if meth == "from_seconds": return a * 10 ** 9      # cosmwasm: Uint64::new(s * 1e9) (panics on overflow in debug; wraps never observed < 2^34 s)
+    if meth == "from_seconds":
+        r = a * 10 ** 9                                  # plain u64 multiplication: panics on overflow (overflow-checks are on)
+        if ctx.branch(r < U64, "ts-from-seconds"): return r
+        raise Panic("attempt to multiply with overflow (Timestamp::from_seconds)")
+    if meth == "subsec_nanos": return a % 10 ** 9
     if meth == "seconds": return a / 10 ** 9 if not isinstance(a, int) else a // 10 ** 9
     b = I.deref(ctx, args[1]) if len(args) > 1 else None
     mult = {"plus_seconds": 10 ** 9, "plus_nanos": 1, "minus_seconds": -10 ** 9, "minus_nanos": -1, "plus_minutes": 60 * 10 ** 9,
@@ -228,6 +282,13 @@ def m_coin(I, ctx, callee, args, crate):
         return Struct("Coin", [_s(I, ctx, args[1]), I.deref(ctx, args[0])], ["denom", "amount"])
     if meth == "coins":
         return VecV([Struct("Coin", [_s(I, ctx, args[1]), I.deref(ctx, args[0])], ["denom", "amount"])])
+    if meth == "has_coins":
+        req = I.deref(ctx, args[1])
+        for c in I.deref(ctx, args[0]).items:
+            c = I.deref(ctx, c)
+            if ctx.branch(values_eq(I, ctx, c.get("denom"), req.get("denom")), "has_coins"):
+                return c.get("amount") >= req.get("amount")
+        return False
     raise Unsupported(callee)
 
 
@@ -347,7 +408,7 @@ def m_submsg(I, ctx, callee, args, crate):
 @M.on(r"^(cosmwasm_std::)?StdError::(generic_err|not_found|parse_err|serialize_err|overflow|divide_by_zero|invalid_utf8|invalid_base64|invalid_data_size|verification_err)$|^(cosmwasm_std::)?OverflowError::new$")
 def m_stderr(I, ctx, callee, args, crate):
     meth = strip_generics(callee).split("::")[-1]
-    if "OverflowError" in callee: return ovf_err(args[0] if args else "op")
+    if "OverflowError" in callee: return ovf_err(I.deref(ctx, args[0]) if args else "Add")
     kind = {"generic_err": "GenericErr", "not_found": "NotFound", "parse_err": "ParseErr", "serialize_err": "SerializeErr",
             "overflow": "Overflow", "divide_by_zero": "DivideByZero", "invalid_utf8": "InvalidUtf8", "invalid_base64": "InvalidBase64",
             "invalid_data_size": "InvalidDataSize", "verification_err": "VerificationErr"}[meth]
@@ -455,3 +516,10 @@ def m_version_cmp(I, ctx, callee, args, crate):
 M.on(r"^<(semver::)?Version as (PartialOrd|Ord|PartialEq)")(m_version_cmp)
 # make sure the Version comparison wins over the generic ordering model registered earlier
 M.pre.insert(0, M.pre.pop())
+
+
+# ------------------------------------------------------------------ associated constants
+@M.const(r"^(cosmwasm_std::)?(Uint128|Uint64|Uint256|Decimal)::(MAX|MIN)$")
+def c_uint_max(I, ctx, name):
+    ty = re.search(r"(Uint128|Uint64|Uint256|Decimal)", name).group(1)
+    return WIDTH[ty] - 1 if name.endswith("MAX") else 0
